@@ -436,7 +436,9 @@ def received_is_not_the_label_rule(cx, rep, rid):
     mod = fam.mod
     n = 0
     for cname, c in sorted(fam.classes.items()):
-        m = c.methods.get("reportDecodeError")
+      # (every method: the reports of one class may live in private helpers of it - benign b68 - so the obligation is
+      # keyed by the class and the reporter that is called, not by the method)
+      for mname, m in sorted(c.methods.items()):
         if not m or m.get("function") is None or m["function"].get("body") is None:
             continue
         for b in twalk(m["function"]):
@@ -467,8 +469,8 @@ def received_is_not_the_label_rule(cx, rep, rid):
                         continue
                     n += 1
                     bad = recv.get("type") == "Identifier" and recv["value"] == label
-                    rep.ob(rid, "%s.reportDecodeError/received-is-the-label/%s" % (cname, cal.rsplit(".", 2)[-2] if "." in cal else cal), not bad,
-                           "%s.reportDecodeError pushes the path segment `%s` and reports `%s` itself as the received value (%s): the path addresses `input[%s]`, so `received` is not the value found there" % (cname, label, label, cal, label),
+                    rep.ob(rid, "%s/received-is-the-label/%s" % (cname, cal.rsplit(".", 2)[-2] if "." in cal else cal), not bad,
+                           "%s.%s pushes the path segment `%s` and reports `%s` itself as the received value (%s): the path addresses `input[%s]`, so `received` is not the value found there" % (cname, mname, label, label, cal, label),
                            mod.loc(x), sample={"class": cname, "label": label})
     rep.floor(rid, "reports made under a pushed property / index segment", n, 2)
 
